@@ -91,9 +91,17 @@ type MFee struct {
 	Amount    *big.Int // fixed amount (canonical decimal)
 }
 
+type MSwap struct {
+	Denom    string
+	Num, Den int64
+}
+
 type MPayload struct {
 	HasFee bool
 	Fees   []MFee
+	// Swap: the denomination-changing test action (mode B only); SwapFirst: it precedes the fee action
+	Swap      *MSwap
+	SwapFirst bool
 	Proto  string // PROTOCOL_CCTP | PROTOCOL_HYPERLANE | PROTOCOL_INTERNAL
 	// CCTP
 	Domain        uint32
@@ -118,6 +126,7 @@ const (
 	typeCCTP = "/noble.orbiter.controller.forwarding.v1.CCTPAttributes"
 	typeHyp  = "/noble.orbiter.controller.forwarding.v1.HypAttributes"
 	typeInt  = "/noble.orbiter.controller.forwarding.v1.InternalAttributes"
+	typeSwapAttr = "/testpb.TestActionAttr"
 )
 
 func (p *MPayload) Counterparty() string {
@@ -170,23 +179,39 @@ func b64(b []byte) string {
 func (p *MPayload) Canonical() string {
 	var sb strings.Builder
 	sb.WriteString(`{"orbiter":{`)
+	feeJSON := ""
 	if p.HasFee {
-		sb.WriteString(`"pre_actions":[{"id":"ACTION_FEE","attributes":{"@type":"` + typeFee + `","fees_info":[`)
+		var fb strings.Builder
+		fb.WriteString(`{"id":"ACTION_FEE","attributes":{"@type":"` + typeFee + `","fees_info":[`)
 		for i, f := range p.Fees {
 			if i > 0 {
-				sb.WriteString(",")
+				fb.WriteString(",")
 			}
-			sb.WriteString(`{"recipient":` + strconv.Quote(f.Recipient) + `,`)
+			fb.WriteString(`{"recipient":` + strconv.Quote(f.Recipient) + `,`)
 			if f.IsBPS {
-				sb.WriteString(`"basis_points":{"value":` + strconv.FormatUint(f.BPS, 10) + `}}`)
+				fb.WriteString(`"basis_points":{"value":` + strconv.FormatUint(f.BPS, 10) + `}}`)
 			} else {
-				sb.WriteString(`"amount":{"value":"` + f.Amount.String() + `"}}`)
+				fb.WriteString(`"amount":{"value":"` + f.Amount.String() + `"}}`)
 			}
 		}
-		sb.WriteString(`]}}],`)
-	} else {
-		sb.WriteString(`"pre_actions":[],`)
+		fb.WriteString(`]}}`)
+		feeJSON = fb.String()
 	}
+	swapJSON := ""
+	if p.Swap != nil {
+		swapJSON = fmt.Sprintf(`{"id":"ACTION_SWAP","attributes":{"@type":"%s","whatever":"%s:%d/%d"}}`, typeSwapAttr, p.Swap.Denom, p.Swap.Num, p.Swap.Den)
+	}
+	var acts []string
+	if p.SwapFirst && swapJSON != "" {
+		acts = append(acts, swapJSON)
+	}
+	if feeJSON != "" {
+		acts = append(acts, feeJSON)
+	}
+	if !p.SwapFirst && swapJSON != "" {
+		acts = append(acts, swapJSON)
+	}
+	sb.WriteString(`"pre_actions":[` + strings.Join(acts, ",") + `],`)
 	sb.WriteString(`"forwarding":{"protocol_id":"` + p.Proto + `","attributes":{`)
 	switch p.Proto {
 	case "PROTOCOL_CCTP":
@@ -221,6 +246,7 @@ type jAction struct {
 	Attributes *struct {
 		Type     *string `json:"@type"`
 		FeesInfo []jFee  `json:"fees_info"`
+		Whatever *string `json:"whatever"`
 	} `json:"attributes"`
 }
 
@@ -290,37 +316,62 @@ func parsePayload(memo string) (*MPayload, bool) {
 		return nil, false
 	}
 	p := &MPayload{}
-	if len(r.Orbiter.PreActions) > 1 {
+	if len(r.Orbiter.PreActions) > 2 {
 		return nil, false
 	}
-	if len(r.Orbiter.PreActions) == 1 {
-		a := r.Orbiter.PreActions[0]
-		if a.ID == nil || *a.ID != "ACTION_FEE" || a.Attributes == nil || a.Attributes.Type == nil || *a.Attributes.Type != typeFee {
+	for ai, a := range r.Orbiter.PreActions {
+		if a.ID == nil || a.Attributes == nil || a.Attributes.Type == nil {
 			return nil, false
 		}
-		p.HasFee = true
-		for _, f := range a.Attributes.FeesInfo {
-			if f.Recipient == nil {
+		switch *a.ID {
+		case "ACTION_SWAP":
+			if p.Swap != nil || *a.Attributes.Type != typeSwapAttr || a.Attributes.Whatever == nil || a.Attributes.FeesInfo != nil {
 				return nil, false
 			}
-			mf := MFee{Recipient: *f.Recipient}
-			switch {
-			case f.BasisPoints != nil && f.Amount == nil && f.BasisPoints.Value != nil:
-				v, err := strconv.ParseUint(f.BasisPoints.Value.String(), 10, 32)
-				if err != nil {
-					return nil, false
-				}
-				mf.IsBPS, mf.BPS = true, v
-			case f.Amount != nil && f.BasisPoints == nil && f.Amount.Value != nil:
-				if !decRe(*f.Amount.Value) {
-					return nil, false
-				}
-				mf.Amount, _ = new(big.Int).SetString(*f.Amount.Value, 10)
-			default:
+			w := *a.Attributes.Whatever
+			i := strings.Index(w, ":")
+			if i < 0 {
 				return nil, false
 			}
-			p.Fees = append(p.Fees, mf)
+			var num, den int64
+			if _, err := fmt.Sscanf(w[i+1:], "%d/%d", &num, &den); err != nil || num <= 0 || den <= 0 {
+				return nil, false
+			}
+			p.Swap = &MSwap{Denom: w[:i], Num: num, Den: den}
+			p.SwapFirst = ai == 0
+		case "ACTION_FEE":
+			if p.HasFee || *a.Attributes.Type != typeFee || a.Attributes.Whatever != nil {
+				return nil, false
+			}
+			p.HasFee = true
+			for _, f := range a.Attributes.FeesInfo {
+				if f.Recipient == nil {
+					return nil, false
+				}
+				mf := MFee{Recipient: *f.Recipient}
+				switch {
+				case f.BasisPoints != nil && f.Amount == nil && f.BasisPoints.Value != nil:
+					v, err := strconv.ParseUint(f.BasisPoints.Value.String(), 10, 32)
+					if err != nil {
+						return nil, false
+					}
+					mf.IsBPS, mf.BPS = true, v
+				case f.Amount != nil && f.BasisPoints == nil && f.Amount.Value != nil:
+					if !decRe(*f.Amount.Value) {
+						return nil, false
+					}
+					mf.Amount, _ = new(big.Int).SetString(*f.Amount.Value, 10)
+				default:
+					return nil, false
+				}
+				p.Fees = append(p.Fees, mf)
+			}
+		default:
+			return nil, false
 		}
+	}
+	if p.Swap != nil && !p.HasFee {
+		p.SwapFirst = true
 	}
 	f := r.Orbiter.Forwarding
 	if f.ProtocolID == nil {
@@ -583,4 +634,24 @@ func NewEnvModel() *EnvModel {
 		}
 	}
 	return e
+}
+
+// actions lists the payload's pre-actions in payload order (for the model fold).
+func (p *MPayload) actions() []mAction {
+	var out []mAction
+	sw := func() {
+		if p.Swap != nil {
+			out = append(out, mAction{Kind: "swap", Denom: p.Swap.Denom, Num: p.Swap.Num, Den: p.Swap.Den})
+		}
+	}
+	if p.SwapFirst {
+		sw()
+	}
+	if p.HasFee {
+		out = append(out, mAction{Kind: "fee", Fees: p.Fees})
+	}
+	if !p.SwapFirst {
+		sw()
+	}
+	return out
 }
